@@ -8,8 +8,12 @@
 (***************************************************************************)
 EXTENDS Text
 
-Blank == {TAB, SP}                          \* unambiguous blanks
-Ambig == {VT, FF, CR, 133, 160}             \* blanks for (b as char).is_whitespace() only
+\* Blanks are the bytes pkg_install's isspace() (C locale) accepts besides the newline; the code
+\* tests (b as char).is_whitespace(), which additionally treats the bytes 0x85 and 0xA0 (NEL and
+\* NBSP when the byte is read as a Latin-1 code point) as blanks.  Whether those two are blanks
+\* is left open by the statement, so inputs that depend on it are not judged.
+Blank == {TAB, VT, FF, CR, SP}
+Ambig == {133, 160}
 WsP   == Blank \cup Ambig
 
 \* ---- lines ------------------------------------------------------------------------
